@@ -66,13 +66,12 @@ Proof.
     rewrite Hdig. f_equal. cbn [length value_lsd]. rewrite Nat2Z.inj_succ, Z.pow_succ_r by lia. lia.
 Qed.
 
-Theorem canon_dec_dec : forall n, 0 <= n -> canon_dec (dec n) = Some n.
+Lemma zl_refl : forall a, zlist_eqb a a = true.
+Proof. unfold zlist_eqb. induction a; cbn [list_eqb]; [reflexivity |]. rewrite Z.eqb_refl. exact IHa. Qed.
+
+Lemma plain_dec : forall n, 0 <= n -> plain (dec n) = true.
 Proof.
-  intros n H0. destruct (lsd_spec n H0) as (Hok & Hv & Hne & Hh). unfold dec.
-  assert (Hs : map (fun d => 48 + d) (rev (lsd n)) <> []).
-  { intro E. apply map_eq_nil in E. apply (f_equal (@rev Z)) in E. rewrite rev_involutive in E. exact (Hne E). }
-  rewrite canon_dec_plain; [rewrite parse_rev_digits by exact Hok; f_equal; lia | | exact Hs].
-  (* plain: the first character is a digit, and it is '0' only for "0" itself *)
+  intros n H0. destruct (lsd_spec n H0) as (Hok & _ & Hne & Hh). unfold dec.
   assert (Hrok : Forall (fun d => 0 <= d <= 9) (rev (lsd n))) by (apply Forall_rev; exact Hok).
   destruct (rev (lsd n)) as [ | x xs] eqn:R; [reflexivity |].
   inversion Hrok as [ | ? ? Hx _]; subst. cbn [map plain].
@@ -82,6 +81,23 @@ Proof.
   destruct (Z.eq_dec n 0) as [-> | Hn].
   - vm_compute in R. inversion R; subst. reflexivity.
   - exfalso. apply Hh; [lia | reflexivity].
+Qed.
+
+Lemma dec_nonempty : forall n, 0 <= n -> dec n <> [].
+Proof.
+  intros n H0 E. destruct (lsd_spec n H0) as (_ & _ & Hne & _). unfold dec in E.
+  apply map_eq_nil in E. apply (f_equal (@rev Z)) in E. rewrite rev_involutive in E. exact (Hne E).
+Qed.
+
+Lemma parse_dec : forall n, 0 <= n -> parse_digits (dec n) 0 = Some n.
+Proof.
+  intros n H0. destruct (lsd_spec n H0) as (Hok & Hv & _ & _). unfold dec.
+  rewrite parse_rev_digits by exact Hok. f_equal. lia.
+Qed.
+
+Theorem canon_dec_dec : forall n, 0 <= n -> canon_dec (dec n) = Some n.
+Proof.
+  intros n H0. rewrite canon_dec_plain; [apply parse_dec; exact H0 | apply plain_dec; exact H0 | apply dec_nonempty; exact H0].
 Qed.
 
 Lemma dec_not_length : forall n, 0 <= n -> zlist_eqb (dec n) str_length = false.
@@ -90,33 +106,164 @@ Proof.
   apply zlist_eqb_eq in E. pose proof (canon_dec_dec n H0) as C. rewrite E in C. vm_compute in C. discriminate.
 Qed.
 
-(* ToString(n) is classified as KI n, for every integer n >= 0 ... *)
+(* ToString(n) is classified as KI n, for every integer n >= 0 *)
 Theorem key_of_dec : forall n, 0 <= n -> key_of_string (dec n) = KI n.
 Proof. intros n H0. unfold key_of_string. rewrite dec_not_length, canon_dec_dec by exact H0. reflexivity. Qed.
-
-(* ... it is an array index exactly below 2^32 - 1 (15.4), and otto's stringToArrayIndex agrees on it *)
-Theorem dec_array_index : forall n, 0 <= n ->
-  array_index (key_of_string (dec n)) = (if n <? max_index then Some n else None) /\
-  stringToArrayIndex (dec n) = (if n <? max_index then Some n else None).
-Proof.
-  intros n H0. assert (H : array_index (key_of_string (dec n)) = if n <? max_index then Some n else None)
-    by (rewrite key_of_dec by exact H0; reflexivity).
-  split; [exact H |]. rewrite <- H. apply array_index_plain.
-  (* plain (dec n) *)
-  destruct (lsd_spec n H0) as (Hok & _ & Hne & Hh). unfold dec.
-  assert (Hrok : Forall (fun d => 0 <= d <= 9) (rev (lsd n))) by (apply Forall_rev; exact Hok).
-  destruct (rev (lsd n)) as [ | x xs] eqn:R; [reflexivity |].
-  inversion Hrok as [ | ? ? Hx _]; subst. cbn [map plain].
-  destruct (Z.eqb_spec (48 + x) 43); [lia |]. destruct (Z.eqb_spec (48 + x) 45); [lia |]. cbn [negb andb].
-  destruct (Z.eqb_spec (48 + x) 48) as [E | E]; [ | reflexivity]. cbn [negb orb].
-  assert (x = 0) by lia. subst x.
-  destruct (Z.eq_dec n 0) as [-> | Hn].
-  - vm_compute in R. inversion R; subst. reflexivity.
-  - exfalso. apply Hh; [lia | reflexivity].
-Qed.
 
 (* distinct integers have distinct names *)
 Theorem dec_injective : forall a b, 0 <= a -> 0 <= b -> dec a = dec b -> a = b.
 Proof.
   intros a b Ha Hb E. pose proof (canon_dec_dec a Ha) as Ca. rewrite E, (canon_dec_dec b Hb) in Ca. congruence.
+Qed.
+
+(* ---------- the converse: a canonical decimal string is the printing of its value ---------- *)
+Lemma value_lsd_nonneg : forall l, digits_ok l -> 0 <= value_lsd l.
+Proof. induction 1; cbn [value_lsd]; lia. Qed.
+
+Lemma value_lsd_pos : forall l, digits_ok l -> l <> [] -> last l 0 <> 0 -> 1 <= value_lsd l.
+Proof.
+  induction l as [ | d l IH]; intros Hok Hne Hl; [congruence |].
+  inversion Hok as [ | ? ? Hd Hok']; subst. destruct l as [ | e l'].
+  - cbn in *. lia.
+  - change (value_lsd (d :: e :: l')) with (d + 10 * value_lsd (e :: l')). change (last (d :: e :: l') 0) with (last (e :: l') 0) in Hl.
+    assert (1 <= value_lsd (e :: l')) by (apply IH; [exact Hok' | discriminate | exact Hl]). lia.
+Qed.
+
+Lemma lsd_fuel_unique : forall l f, digits_ok l -> l <> [] -> (last l 0 <> 0 \/ l = [0]) ->
+  value_lsd l < 2 ^ (Z.of_nat f + 1) -> lsd_fuel f (value_lsd l) = l.
+Proof.
+  induction l as [ | d l IH]; intros f Hok Hne Hl Hlt; [congruence |].
+  inversion Hok as [ | ? ? Hd Hok']; subst. destruct l as [ | e l'].
+  - assert (E : value_lsd [d] = d) by (cbn; lia). rewrite E in *.
+    destruct f; cbn [lsd_fuel]; [reflexivity |]. destruct (Z.ltb_spec d 10); [reflexivity | lia].
+  - assert (Hl' : last (e :: l') 0 <> 0) by (destruct Hl as [Hl | Hl]; [exact Hl | discriminate]).
+    assert (Hv : 1 <= value_lsd (e :: l')) by (apply value_lsd_pos; [exact Hok' | discriminate | exact Hl']).
+    set (v := value_lsd (e :: l')) in *.
+    assert (E : value_lsd (d :: e :: l') = d + 10 * v) by reflexivity. rewrite E in *.
+    destruct f as [ | f'].
+    + change (2 ^ (Z.of_nat 0 + 1)) with 2 in Hlt. lia.
+    + cbn [lsd_fuel]. destruct (Z.ltb_spec (d + 10 * v) 10); [lia |].
+      assert (Hm : (d + 10 * v) mod 10 = d).
+      { replace (d + 10 * v) with (d + v * 10) by lia. rewrite Z.mod_add by lia. apply Z.mod_small. lia. }
+      assert (Hq : (d + 10 * v) / 10 = v).
+      { replace (d + 10 * v) with (d + v * 10) by lia. rewrite Z.div_add by lia. rewrite (Z.div_small d 10) by lia. lia. }
+      rewrite Hm, Hq. f_equal. unfold v. apply IH; [exact Hok' | discriminate | left; exact Hl' |].
+      fold v. replace (Z.of_nat (S f') + 1) with (Z.succ (Z.of_nat f' + 1)) in Hlt by lia.
+      rewrite Z.pow_succ_r in Hlt by lia. lia.
+Qed.
+
+Lemma lsd_unique : forall l, digits_ok l -> l <> [] -> (last l 0 <> 0 \/ l = [0]) -> lsd (value_lsd l) = l.
+Proof.
+  intros l Hok Hne Hl. unfold lsd. apply lsd_fuel_unique; try assumption.
+  pose proof (value_lsd_nonneg l Hok) as H0.
+  destruct (Z.eq_dec (value_lsd l) 0) as [E | E]; [rewrite E; cbn; lia |].
+  rewrite Z2Nat.id by (apply Z.log2_nonneg). apply Z.log2_lt_pow2; lia.
+Qed.
+
+Lemma parse_digits_all : forall l acc n, parse_digits l acc = Some n -> Forall (fun c => 48 <= c <= 57) l.
+Proof.
+  induction l as [ | c l IH]; intros acc n H; [constructor |]. cbn [parse_digits] in H.
+  destruct (is_digit c) eqn:D; [ | discriminate]. unfold is_digit in D. apply andb_prop in D. destruct D as [D1 D2].
+  apply Z.leb_le in D1. apply Z.leb_le in D2. constructor; [lia | eapply IH; exact H].
+Qed.
+
+(* what a successful canon_dec says about the string *)
+Lemma canon_dec_cases : forall s n, canon_dec s = Some n ->
+  (s = [48] /\ n = 0) \/ (exists c r, s = c :: r /\ c <> 48 /\ parse_digits s 0 = Some n).
+Proof.
+  intros [ | c r] n H; [discriminate |].
+  destruct (Z.eq_dec c 48) as [-> | Hc].
+  - destruct r; cbn in H; [left; inversion H; split; reflexivity | discriminate].
+  - right. exists c, r. split; [reflexivity | split; [exact Hc |]]. rewrite <- H. symmetry.
+    apply canon_dec_plain; [ | discriminate].
+    (* c is a digit because the parse succeeds *)
+    assert (P : exists m, parse_digits (c :: r) 0 = Some m).
+    { unfold canon_dec in H. destruct c as [ | p | p]; try (eexists; exact H).
+      do 6 (destruct p as [p | p | ]; try (eexists; exact H)). congruence. }
+    destruct P as (m & P). apply parse_digits_all in P. inversion P as [ | ? ? Hd _]; subst.
+    cbn [plain]. destruct (Z.eqb_spec c 43); [lia |]. destruct (Z.eqb_spec c 45); [lia |].
+    destruct (Z.eqb_spec c 48); [congruence | reflexivity].
+Qed.
+
+Theorem canon_dec_inv : forall s n, canon_dec s = Some n -> dec n = s.
+Proof.
+  intros s n H. destruct (canon_dec_cases s n H) as [(-> & ->) | (c & r & Es & Hc & P)]; [reflexivity |].
+  pose proof (parse_digits_all _ _ _ P) as Hall.
+  set (l := rev (map (fun x => x - 48) s)).
+  assert (Hs : map (fun d => 48 + d) (rev l) = s).
+  { unfold l. rewrite rev_involutive, map_map. rewrite <- (map_id s) at 2. apply map_ext. intro a. lia. }
+  assert (Hok : digits_ok l).
+  { unfold l, digits_ok. apply Forall_rev. apply Forall_map. eapply Forall_impl; [ | exact Hall]. cbn. intros a Ha. lia. }
+  assert (Hv : value_lsd l = n).
+  { pose proof (parse_rev_digits l 0 Hok) as Q. rewrite Hs, P in Q. inversion Q. lia. }
+  assert (Hlast : last l 0 = c - 48).
+  { unfold l. rewrite Es. cbn [map rev]. apply last_last. }
+  assert (Hne : l <> []).
+  { unfold l. rewrite Es. cbn [map rev]. intro E. apply app_eq_nil in E. destruct E as [_ E]. discriminate. }
+  assert (Hl : lsd n = l) by (rewrite <- Hv; apply lsd_unique; [exact Hok | exact Hne | left; rewrite Hlast; lia]).
+  unfold dec. rewrite Hl. exact Hs.
+Qed.
+
+(* ---------- stringToArrayIndex is the ES5 array-index test, for every string ---------- *)
+Lemma otto_parse_dec : forall n, 0 <= n -> otto_parse_int (dec n) = if max_int64 <? n then None else Some n.
+Proof.
+  intros n H0. pose proof (plain_dec n H0) as Hp. pose proof (dec_nonempty n H0) as Hne. pose proof (parse_dec n H0) as P.
+  unfold otto_parse_int. destruct (dec n) as [ | c r] eqn:E; [congruence |].
+  cbn [plain] in Hp. apply andb_prop in Hp. destruct Hp as [Hp _]. apply andb_prop in Hp. destruct Hp as [H1 H2].
+  destruct (c =? 43); [discriminate |]. destruct (c =? 45); [discriminate |].
+  rewrite P. unfold min_int64, max_int64. brk; cbn [orb]; try reflexivity; lia.
+Qed.
+
+Theorem array_index_all : forall s, stringToArrayIndex s = array_index (key_of_string s).
+Proof.
+  intro s. destruct (canon_dec s) as [n | ] eqn:C.
+  - (* a canonical decimal string: s = dec n *)
+    pose proof (canon_dec_inv s n C) as <-.
+    assert (H0 : 0 <= n).
+    { destruct (canon_dec_cases _ _ C) as [(_ & ->) | (c & r & _ & _ & P)]; [lia |]. exact (parse_digits_ge _ _ _ P ltac:(lia)). }
+    rewrite key_of_dec by exact H0. cbn [array_index]. unfold stringToArrayIndex. rewrite otto_parse_dec by exact H0.
+    unfold max_int64, max_index. destruct (Z.ltb_spec 9223372036854775807 n).
+    + destruct (Z.ltb_spec n 4294967295); [lia | reflexivity].
+    + rewrite zl_refl. brk; try reflexivity; lia.
+  - (* anything else is not an index for ES5, and otto's final comparison rejects it *)
+    assert (Hspec : array_index (key_of_string s) = None).
+    { unfold key_of_string. destruct (zlist_eqb s str_length); [reflexivity |]. rewrite C. reflexivity. }
+    rewrite Hspec. unfold stringToArrayIndex. destruct (otto_parse_int s) as [i | ]; [ | reflexivity].
+    destruct (Z.ltb_spec i 0); [reflexivity |]. destruct (max_index <=? i); [reflexivity |].
+    destruct (zlist_eqb (dec i) s) eqn:E; [ | reflexivity].
+    apply zlist_eqb_eq in E. rewrite <- E in C. rewrite canon_dec_dec in C by lia. discriminate C.
+Qed.
+
+(* arrayDefineOwnProperty sees an index in a name exactly when ES5 does *)
+Theorem key_index_agree : forall k, otto_key_index k = array_index k \/ exists s, k = KS s /\ canon_dec s <> None.
+Proof.
+  intros [n | | s]; [left; reflexivity | left; reflexivity |].
+  destruct (canon_dec s) eqn:C; [right; exists s; split; [reflexivity | rewrite C; discriminate] |].
+  left. cbn [otto_key_index array_index]. rewrite array_index_all. unfold key_of_string.
+  destruct (zlist_eqb s str_length); [reflexivity |]. rewrite C. reflexivity.
+Qed.
+
+(* ToString(n) is an array index exactly below 2^32 - 1 (15.4), and stringToArrayIndex agrees *)
+Theorem dec_array_index : forall n, 0 <= n ->
+  array_index (key_of_string (dec n)) = (if n <? max_index then Some n else None) /\
+  stringToArrayIndex (dec n) = (if n <? max_index then Some n else None).
+Proof.
+  intros n H0. rewrite array_index_all, key_of_dec by exact H0. split; reflexivity.
+Qed.
+
+(* on every name a script can write, arrayDefineOwnProperty sees an index exactly when ES5 does *)
+Theorem key_index_of_string : forall s, otto_key_index (key_of_string s) = array_index (key_of_string s).
+Proof.
+  intro s. unfold key_of_string. destruct (zlist_eqb s str_length) eqn:L; [reflexivity |].
+  destruct (canon_dec s) as [n | ] eqn:C; [reflexivity |].
+  cbn [otto_key_index array_index]. rewrite array_index_all. unfold key_of_string. rewrite L, C. reflexivity.
+Qed.
+
+(* a canonical decimal string is the printing of its value and nothing else is *)
+Theorem canonical_names : forall s n, canon_dec s = Some n <-> (0 <= n /\ dec n = s).
+Proof.
+  intros s n; split.
+  - intro H. split; [ | exact (canon_dec_inv s n H)].
+    destruct (canon_dec_cases _ _ H) as [(_ & ->) | (c & r & _ & _ & P)]; [lia |]. exact (parse_digits_ge _ _ _ P ltac:(lia)).
+  - intros (Hn & <-). exact (canon_dec_dec n Hn).
 Qed.
